@@ -12,6 +12,10 @@ configuration (and vice versa, and both under the invalid values 3..255).  Prove
   C24_iff_partial        the full statement outside the region `kindMismatch`
   C24_iff_counterexample the negation at a concrete witness
   C24_own_claims_pass / C24_own_claims_authorised
+  C24_manager_history_independent   on one VerificationManager the verdict of VerifyBlock for a header is the
+                         single-shot verdict with the epoch data of the header's own branch, whatever was
+                         verified or disabled before (VerifyBlock reads no manager state)
+  C24_verifyBlock_iff_partial / C24_manager_accepts_authorised
 -/
 import Gossamer.Model.C24
 namespace Gossamer.C24
@@ -239,6 +243,188 @@ theorem C24_iff_counterexample_vrf :
       verify H 1 1 4 1 [] [.pre (some (.secVRF 0 5)), .sealItem] o = .ok ∧
       authorised H 1 1 4 1 [] [.pre (some (.secVRF 0 5)), .sealItem] o = false :=
   ⟨fun _ => [0], ⟨false, false, .yes, .yes⟩, by decide, by decide⟩
+
+/-! ### one VerificationManager, many calls -/
+
+/-- The verdict of VerifyBlock does not depend on what the manager did before: in ANY sequence of
+    VerifyBlock / SetOnDisabled calls, started from ANY manager state, the output of every VerifyBlock
+    call is the single-shot verdict computed from the epoch data of the header's own branch. -/
+theorem C24_manager_history_independent (H : Bytes → Bytes) (env : Env) (ops : List Op) :
+    ∀ (st : MState) (i : Nat) (b : VB), ops[i]? = some (.vb b) →
+      (runOps H env st ops)[i]? = some (.verdict (verifyBlock H env b)) := by
+  induction ops with
+  | nil => intro st i b h; simp at h
+  | cons op ops ih =>
+    intro st i b h
+    cases i with
+    | zero =>
+      simp only [List.getElem?_cons_zero, Option.some.injEq] at h
+      subst h
+      simp [runOps, stepOp]
+    | succ j =>
+      simp only [List.getElem?_cons_succ] at h
+      simp only [runOps, List.getElem?_cons_succ]
+      exact ih _ j b h
+
+/-- the same, said about two different histories -/
+theorem C24_manager_two_histories (H : Bytes → Bytes) (env : Env) (pre1 pre2 : List Op) (st1 st2 : MState)
+    (b : VB) :
+    (runOps H env st1 (pre1 ++ [.vb b]))[pre1.length]? =
+    (runOps H env st2 (pre2 ++ [.vb b]))[pre2.length]? := by
+  have h1 := C24_manager_history_independent H env (pre1 ++ [Op.vb b]) st1 pre1.length b (by simp)
+  have h2 := C24_manager_history_independent H env (pre2 ++ [Op.vb b]) st2 pre2.length b (by simp)
+  rw [h1, h2]
+
+/-- SetOnDisabled never changes what VerifyBlock answers (the code keeps `onDisabled` but
+    VerifyBlock does not read it) and the run has one output per call -/
+theorem runOps_length (H : Bytes → Bytes) (env : Env) (ops : List Op) :
+    ∀ st, (runOps H env st ops).length = ops.length := by
+  induction ops with
+  | nil => intro st; rfl
+  | cons op ops ih => intro st; simp [runOps, ih]
+
+theorem verifyWith_iff_partial (H : Bytes → Bytes) (d : Desc) (digest : List Item) (o : Oracles)
+    (hreg : kindMismatch d.ss digest = false) :
+    verifyWith H d digest o = .ok ↔ authorised H d.ss d.c1 d.c2 d.n (randOf d.rb) digest o = true :=
+  C24_iff_partial H d.ss d.c1 d.c2 d.n (randOf d.rb) digest o hreg
+
+/-- the descriptor VerifyBlock uses for a header (when it gets as far as building a verifier) -/
+def descOfBlock (env : Env) (b : VB) : Desc :=
+  match b.parent with
+  | .blk k => env.at b.branch (whereEpoch (epochOfK k) b.epoch)
+  | _ => env.at b.branch b.epoch
+
+/-- VerifyBlock accepts a header iff its parent is known, its epoch is not below its parent's, and it
+    is authorised under the epoch data of its own branch — outside the region `kindMismatch`. -/
+theorem C24_verifyBlock_iff_partial (H : Bytes → Bytes) (env : Env) (b : VB)
+    (hreg : kindMismatch (descOfBlock env b).ss b.digest = false) :
+    verifyBlock H env b = .ok ↔ blockAuthorised H env b = true := by
+  unfold verifyBlock blockAuthorised
+  unfold descOfBlock at hreg
+  cases hp : b.parent with
+  | unknown => simp
+  | genesis =>
+    simp only [hp] at hreg
+    simp only []
+    exact verifyWith_iff_partial H _ _ _ hreg
+  | blk k =>
+    simp only [hp] at hreg
+    simp only []
+    by_cases he : epochOfK k > b.epoch
+    · have : ¬ epochOfK k ≤ b.epoch := by omega
+      simp [he, this]
+    · have hle : epochOfK k ≤ b.epoch := by omega
+      simp only [he, if_false, hle, decide_true, Bool.true_and]
+      exact verifyWith_iff_partial H _ _ _ hreg
+
+/-- completeness on the manager level, unconditional: an authorised header is accepted, whatever the
+    manager verified or disabled before -/
+theorem C24_manager_accepts_authorised (H : Bytes → Bytes) (env : Env) (pre : List Op) (st : MState)
+    (b : VB) (h : blockAuthorised H env b = true) :
+    (runOps H env st (pre ++ [.vb b]))[pre.length]? = some (.verdict .ok) := by
+  have h1 := C24_manager_history_independent H env (pre ++ [Op.vb b]) st pre.length b (by simp)
+  rw [h1]
+  congr 2
+  unfold blockAuthorised at h
+  unfold verifyBlock
+  cases hp : b.parent with
+  | unknown => simp [hp] at h
+  | genesis =>
+    simp only [hp] at h
+    exact C24_authorised_accepted _ _ _ _ _ _ _ _ h
+  | blk k =>
+    simp only [hp, Bool.and_eq_true, decide_eq_true_eq] at h
+    have : ¬ epochOfK k > b.epoch := by omega
+    simp only [this, if_false]
+    exact C24_authorised_accepted _ _ _ _ _ _ _ _ h.2
+
+/-- two branches announcing different descriptors for epoch 1: the same header material is judged by
+    its own branch's data (non-vacuity of the manager theorems: the verdicts really differ) -/
+example :
+    let env : Env := ⟨⟨1, 0, 1, 1, 0⟩, ⟨1, 0, 1, 1, 1⟩, ⟨1, 0, 1, 1, 0⟩⟩
+    let d : List Item := [.pre (some (.secPlain 0 5)), .sealItem]
+    let o : Oracles := ⟨false, false, .no, .yes⟩
+    runOps (fun _ => [0]) env MState.init
+      [.vb ⟨.A, .blk 1, 1, d, o⟩, .vb ⟨.B, .blk 1, 1, d, o⟩, .dis .A 2 0, .vb ⟨.B, .blk 1, 1, d, o⟩,
+       .vb ⟨.A, .blk 1, 1, d, o⟩]
+    = [.verdict .ok, .verdict .badSlotClaim, .dis .ok, .verdict .badSlotClaim, .verdict .ok] := by
+  decide
+
+/-! ### the disabled-authority bookkeeping (all reachable manager states) -/
+
+/-- no producer is recorded as disabled twice along one branch: a later entry for the same
+    (epoch, producer) is never at a descendant-or-self of an earlier entry's block -/
+def DisInv (st : MState) : Prop :=
+  st.disabled.Pairwise fun e1 e2 =>
+    e1.epoch = e2.epoch → e1.idx = e2.idx →
+      ¬ (isDescendantOf e1.blk e2.blk = true ∧ e2.number ≥ e1.number)
+
+theorem setOnDisabled_inv (env : Env) (st : MState) (br : Branch) (k idx : Nat) (h : DisInv st) :
+    DisInv (setOnDisabled env st br k idx).1 := by
+  unfold setOnDisabled
+  simp only []
+  -- the cache step does not touch `disabled`
+  have key : ∀ (st1 : MState) (n : Nat), st1.disabled = st.disabled →
+      DisInv (if idx ≥ n then (st1, DisResult.index)
+        else if (st1.disabled.filter fun e => e.epoch = epochOfK k ∧ e.idx = idx).any
+            (fun e => isDescendantOf e.blk ⟨br, k⟩ && decide (k ≥ e.number)) then (st1, DisResult.already)
+        else ({ st1 with disabled := st1.disabled ++ [⟨epochOfK k, idx, k, ⟨br, k⟩⟩] }, DisResult.ok)).1 := by
+    intro st1 n hd
+    have h1 : DisInv st1 := by unfold DisInv; rw [hd]; exact h
+    by_cases hi : idx ≥ n
+    · simp only [hi, if_true]; exact h1
+    · simp only [hi, if_false]
+      by_cases ha : (st1.disabled.filter fun e => e.epoch = epochOfK k ∧ e.idx = idx).any
+            (fun e => isDescendantOf e.blk ⟨br, k⟩ && decide (k ≥ e.number)) = true
+      · simp only [ha, if_true]; exact h1
+      · simp only [ha]
+        unfold DisInv
+        simp only [Bool.false_eq_true, if_false]
+        rw [List.pairwise_append]
+        refine ⟨h1, List.pairwise_singleton _ _, ?_⟩
+        intro e he e2 he2 hep hix
+        simp only [List.mem_singleton] at he2
+        subst he2
+        simp only at hep hix
+        intro ⟨hd1, hn⟩
+        apply ha
+        rw [List.any_eq_true]
+        refine ⟨e, ?_, ?_⟩
+        · rw [List.mem_filter]
+          exact ⟨he, by simp [hep, hix]⟩
+        · simp only [Bool.and_eq_true, decide_eq_true_eq]
+          exact ⟨hd1, hn⟩
+  cases hl : st.cache.lookup (epochOfK k) with
+  | some n => simp only []; exact key st n rfl
+  | none =>
+    simp only []
+    cases hg : getVerifierInfo (env.at br (epochOfK k)).ss (env.at br (epochOfK k)).c1
+        (env.at br (epochOfK k)).c2 (env.at br (epochOfK k)).n with
+    | none => simp only []; exact h
+    | some info => simp only []; exact key _ info.n rfl
+
+/-- the state after a run -/
+def runState (H : Bytes → Bytes) (env : Env) : MState → List Op → MState
+  | st, [] => st
+  | st, op :: ops => runState H env (stepOp H env st op).1 ops
+
+/-- In every manager state reachable by any sequence of VerifyBlock / SetOnDisabled calls, no producer
+    is recorded as disabled twice along one branch (the duplicate is refused with
+    ErrAuthorityAlreadyDisabled instead). -/
+theorem C24_disabled_no_duplicates (H : Bytes → Bytes) (env : Env) (ops : List Op) :
+    ∀ st, DisInv st → DisInv (runState H env st ops) := by
+  induction ops with
+  | nil => intro st h; exact h
+  | cons op ops ih =>
+    intro st h
+    simp only [runState]
+    apply ih
+    cases op with
+    | vb b => exact h
+    | dis br k idx => exact setOnDisabled_inv env st br k idx h
+
+theorem DisInv_init : DisInv MState.init := by
+  unfold DisInv MState.init; exact List.Pairwise.nil
 
 /-! ### the node's own claims -/
 
